@@ -713,46 +713,53 @@ def s_migration(E, tier):
     def dirs(root):
         return {os.path.relpath(os.path.join(dp, x), root) for dp, dn, fn in os.walk(root) for x in dn}
     for computed in (['report'], ['data:dbl'], [], ['model:agg:total', 'gen', 'tree']):
-        for nsmode in (False, True):
+        for nsmode in (False, True, 'same'):
             d = E.dir()
             inner = E.write(d, 'c', {'tasks': TASKS + [f'{LIB}.Gen', f'{LIB}.Tree'], 'n': 3})
-            f = E.write(d, 'top', {'uses': [f'{inner} as train', f'{E.write(d, "c2", {"tasks": TASKS + [f"{LIB}.Gen", f"{LIB}.Tree"], "n": 2})} as test']}) if nsmode else inner
+            if nsmode == 'same':
+                # the SAME pipeline mounted twice: in parameter mode both mounts are one computation (shared task objects)
+                f = E.write(d, 'top', {'uses': [f'{inner} as train', f'{inner} as test']})
+            else:
+                f = E.write(d, 'top', {'uses': [f'{inner} as train', f'{E.write(d, "c2", {"tasks": TASKS + [f"{LIB}.Gen", f"{LIB}.Tree"], "n": 2})} as test']}) if nsmode else inner
             src, dst = d / 'old', d / 'new'
             E.tried += 1
-            with quiet():
-                old = Config(src, f).chain(parameter_mode=False)
-                pref = ['train::', 'test::'] if nsmode else ['']
-                for p_ in pref:
-                    for c in computed:
-                        _ = old[p_ + c].value
-                dirs0 = dirs(src)           # before anything inspects the store
-                cfgo = Config(src, f)
-                migrate_to_parameter_mode(cfgo, dst, dry=True, verbose=bool(E.r.getrandbits(1)))
-                if tree(dst):
-                    E.viol('C20', 'dry', f'a dry migration wrote {sorted(tree(dst))[:3]}', computed)
-                if dirs(src) != dirs0:
-                    E.viol('C20', 'source_dirs', f'a dry migration created directories in the SOURCE directory: {sorted(dirs(src) - dirs0)[:4]}', computed,
-                           key='work-directories-created-by-inspection')
-                had = {n: t.has_data for n, t in old.tasks.items() if t.data_path is not None}
-                vals = {n: old[n].value for n in had if had[n] and not n.endswith('tree')}
-                before = tree(src)
-                migrate_to_parameter_mode(Config(src, f), dst, dry=False, verbose=False)
-                after_first = tree(dst)
-                migrate_to_parameter_mode(Config(src, f), dst, dry=False, verbose=False)
-                if tree(dst) != after_first:
-                    E.viol('C20', 'idempotent', 'a second migration changed the target', computed)
-                if tree(src) != before:
-                    E.viol('C20', 'source_files', 'the migration changed files of the source directory', computed)
-                lib.RUNS.clear()
-                new = Config(dst, f).chain()
-                for n, h in had.items():
-                    if new[n].has_data != h:
-                        E.viol('C20', 'exactly', f'{n}: had a result before migration = {h}, has one after = {new[n].has_data}', (computed, nsmode))
-                for n, v in vals.items():
-                    if new[n].value != v:
-                        E.viol('C20', 'values', f'{n}: migrated value {new[n].value!r} != original {v!r}', (computed, nsmode))
-                if lib.RUNS:
-                    E.viol('C20', 'runs_nothing', f'loading migrated results ran {lib.RUNS}', (computed, nsmode))
+            try:
+                with quiet():
+                    old = Config(src, f).chain(parameter_mode=False)
+                    pref = ['train::', 'test::'] if nsmode else ['']
+                    for p_ in pref:
+                        for c in computed:
+                            _ = old[p_ + c].value
+                    dirs0 = dirs(src)           # before anything inspects the store
+                    cfgo = Config(src, f)
+                    migrate_to_parameter_mode(cfgo, dst, dry=True, verbose=bool(E.r.getrandbits(1)))
+                    if tree(dst):
+                        E.viol('C20', 'dry', f'a dry migration wrote {sorted(tree(dst))[:3]}', computed)
+                    if dirs(src) != dirs0:
+                        E.viol('C20', 'source_dirs', f'a dry migration created directories in the SOURCE directory: {sorted(dirs(src) - dirs0)[:4]}', computed,
+                               key='work-directories-created-by-inspection')
+                    had = {n: t.has_data for n, t in old.tasks.items() if t.data_path is not None}
+                    vals = {n: old[n].value for n in had if had[n] and not n.endswith('tree')}
+                    before = tree(src)
+                    migrate_to_parameter_mode(Config(src, f), dst, dry=False, verbose=False)
+                    after_first = tree(dst)
+                    migrate_to_parameter_mode(Config(src, f), dst, dry=False, verbose=False)
+                    if tree(dst) != after_first:
+                        E.viol('C20', 'idempotent', 'a second migration changed the target', computed)
+                    if tree(src) != before:
+                        E.viol('C20', 'source_files', 'the migration changed files of the source directory', computed)
+                    lib.RUNS.clear()
+                    new = Config(dst, f).chain()
+                    for n, h in had.items():
+                        if new[n].has_data != h:
+                            E.viol('C20', 'exactly', f'{n}: had a result before migration = {h}, has one after = {new[n].has_data}', (computed, nsmode))
+                    for n, v in vals.items():
+                        if new[n].value != v:
+                            E.viol('C20', 'values', f'{n}: migrated value {new[n].value!r} != original {v!r}', (computed, nsmode))
+                    if lib.RUNS:
+                        E.viol('C20', 'runs_nothing', f'loading migrated results ran {lib.RUNS}', (computed, nsmode))
+            except Exception as e:
+                E.viol('C20', 'migrates', f'migration of a pipeline failed with {type(e).__name__}: {e}', (computed, nsmode), key=f'{type(e).__name__}-{nsmode}')
 
 
 def s_run_records(E, tier):
